@@ -295,4 +295,27 @@ theorem unesc_fits_alloc {body : Bytes} {n s : Nat} (h : scanEnd body = some (n,
   have h3 := (unesc_writes (n + 1) p n body (Or.inr h1.1)).1
   omega
 
+/-- what a successful parse_string returns: the bytes stored plus the terminating NUL fit `allocation_length` -/
+theorem parseString_written_le {inp : Bytes} {b : PB} {s : StrOut} {b' : PB} (h : parseString inp b = .ok s b') :
+    s.written.length + 1 ≤ s.alloc := by
+  unfold parseString at h
+  split at h
+  · cases h
+  · rename_i q body hd
+    split at h
+    · cases h
+    · split at h
+      · cases h
+      · rename_i n sk hs
+        have hf := unesc_fits_alloc hs (b.off + 1)
+        split at h
+        · rename_i out hu
+          rw [hu] at hf
+          simp only [Res.ok.injEq] at h
+          obtain ⟨rfl, _⟩ := h
+          simpa [SRes.wlen] using hf
+        · cases h
+        · cases h
+        · cases h
+
 end Cjet.Cjson
